@@ -143,6 +143,9 @@ func execC05E2EInner(c c05Case) *ev.Failure {
 		if err != nil {
 			return ev.Failf("harness:dial", "%v", err)
 		}
+		// a server that has given up on the connection stops reading (it does not close it): a large
+		// input then fills the socket buffers, which is the peer's problem, not a hang of the server
+		c1.SetWriteDeadline(time.Now().Add(3 * time.Second))
 		c1.Write(data)
 		// read whatever comes back for a moment, then close
 		c1.SetReadDeadline(time.Now().Add(20 * time.Millisecond))
